@@ -209,6 +209,10 @@ def run(ctx, rep):
                     c.func.attr in ("append", "remove", "clear", "pop", "insert", "extend") and \
                     fn.cls is not None and fn.cls.name == "FlumineSimulation":
                 hq_w.append((fn.name, c.func.attr))
+    cpp = sim_cls.methods.get("_check_pending_packages")
+    if cpp is not None and any(isinstance(t, ast.Subscript) and utext(t.value) == "self.handler_queue"
+                               for st in walk_nodes(cpp.node.body, ast.Assign) for t in st.targets):
+        hq_w.append(("_check_pending_packages", "remove"))   # rebuilt in place (judged by the release-loop rule)
     rep.check(set(hq_w) <= {("_check_pending_packages", "remove"), ("process_order_package", "append"), ("run", "clear")}
               and ("process_order_package", "append") in hq_w and ("_check_pending_packages", "remove") in hq_w,
               "R4", "the pending queue is appended on request, drained by the release step, cleared between markets", None,
@@ -266,6 +270,12 @@ def release_loop(ctx, rep, R):
             for lp in walk_nodes(f.node.body, ast.For):
                 if utext(lp.iter) == lst and [utext(s) for s in sbody(lp.body)] == ["self.handler_queue.remove(%s)" % utext(lp.target)]:
                     drained = True
+        if not direct and not drained:
+            # or the queue is rebuilt in place without them: self.handler_queue[:] = [p for p in self.handler_queue
+            # if p not in <released>] (membership by identity: `id(p) not in {id(x) for x in <released>}`)
+            for x, c2 in via:
+                lst = recv_text(c2)
+                drained = drained or _rebuilt_without(f, "self.handler_queue", lst)
         rep.check(bool(direct) or drained, R, key(f, c, "exactly the released packages leave the queue"), f, c)
 
 
@@ -288,6 +298,30 @@ def _filtered_by_market(f, call, pv):
                     v = utext(g.target)
                     return any(utext(c) in ("%s.market_id == %s" % (v, f.params[1]), "%s == %s.market_id" % (f.params[1], v))
                                for c in g.ifs)
+    return False
+
+
+def _rebuilt_without(f, queue, released):
+    """`<queue>[:] = [p for p in <queue> if p not in <released>]` (or by identity through a set of ids)"""
+    id_sets = set()
+    for st in walk_nodes(f.node.body, ast.Assign):
+        v = st.value
+        if isinstance(v, (ast.SetComp, ast.ListComp)) and len(v.generators) == 1 and utext(v.generators[0].iter) == released \
+                and not v.generators[0].ifs and utext(v.elt) == "id(%s)" % utext(v.generators[0].target):
+            id_sets.add(utext(st.targets[0]))
+    for st in walk_nodes(f.node.body, ast.Assign):
+        t = st.targets[0]
+        if not (isinstance(t, ast.Subscript) and utext(t.value) == queue and isinstance(t.slice, ast.Slice)
+                and t.slice.lower is None and t.slice.upper is None):
+            continue
+        v = st.value
+        if isinstance(v, ast.ListComp) and len(v.generators) == 1 and utext(v.generators[0].iter) == queue:
+            g = v.generators[0]
+            pv = utext(g.target)
+            if utext(v.elt) == pv and len(g.ifs) == 1:
+                c = utext(g.ifs[0])
+                if c == "%s not in %s" % (pv, released) or any(c == "id(%s) not in %s" % (pv, ids) for ids in id_sets):
+                    return True
     return False
 
 
